@@ -176,6 +176,8 @@ class _AllAnyOfDisplay(ast.NodeTransformer):
                 and not it.args and isinstance(
                     it.func.value, ast.Attribute)
                 and it.func.value.attr == 'registered_rules'
+                and isinstance(it.func.value.value, ast.Name)
+                and it.func.value.value.id == 'self'
                 and isinstance(node.target, ast.Tuple)
                 and len(node.target.elts) == 2 and all(
                     isinstance(e, ast.Name) for e in node.target.elts)):
